@@ -433,6 +433,11 @@ def zst_extra(tier):
 for _p in ("C01", "C02", "C03", "C07", "C08", "C09", "C11"):
     with_jobs(_p, zst_extra)
 
+# writes through iter_mut / range_mut with internal iteration (for_each, fold): the iterator workload
+# also feeds C01 and C07
+for _p in ("C01", "C07"):
+    with_jobs(_p, lambda tier: [S("dbg", "iters", "--n", ns(0, q(tier, 4, 6))), S("rel", "iters", "--n", ns(0, q(tier, 5, 7)))])
+
 # C17: the byte-stream traits are operations too (write, write_all, read, read_exact, consume, flush
 # and Extend<&u8> must not allocate)
 with_jobs("C17", lambda tier: [S("dbg", "io", "--n", ns(0, 3), "--depth", q(tier, 2, 3)), S("rel", "io", "--n", "4,5,8", "--depth", 2),
